@@ -10,6 +10,7 @@ mod minimize;
 mod model;
 mod msg;
 mod oracle;
+mod realio;
 mod rng;
 mod runner;
 mod scenario;
@@ -94,6 +95,36 @@ fn cmd_one(args: &[String]) -> i32 {
         println!("verdict={:?} steps={} hist_hash={:016x} draws={}", rr.verdict, rr.steps, rr.hist_hash, rr.trace.len());
         for v in &vs {
             println!("violation {} {} :: {}", v.clause, v.signature, v.detail);
+        }
+    }
+    if args.iter().any(|a| a == "--report") {
+        let cases = lanes::cases(&lane, seed, index);
+        let cfg = cases.get(case.min(cases.len().saturating_sub(1))).map(|c| batch::clone_cfg(&c.cfg)).unwrap_or_default();
+        let cfg = runner::RunCfg { diverge_seed: None, ..cfg };
+        let mut seen = std::collections::BTreeSet::new();
+        for v in &vs {
+            if !seen.insert(v.key()) {
+                continue;
+            }
+            let rep = batch::Replay {
+                property: v.property.clone(),
+                clause: v.clause.clone(),
+                signature: v.signature.clone(),
+                detail: v.detail.clone(),
+                family: lane.family.to_string(),
+                verif_seed: seed,
+                index,
+                case,
+                kind: "run".into(),
+                scenario: Some(sc.clone()),
+                trace: rr.trace.clone(),
+                cfg: Some(batch::CfgRec::from(&cfg)),
+                hist_hash: format!("{:016x}", rr.hist_hash),
+                minimised: false,
+                history: batch::history_lines(&rr),
+            };
+            let path = batch::write_replay(&rep);
+            println!("V {}", serde_json::to_string(&batch::VReport { violation: v.clone(), replay: path, index }).unwrap());
         }
     }
     if vs.is_empty() {
@@ -382,7 +413,8 @@ fn build_evidence(
             "known_findings_seen": known_seen.iter().map(|(k, (d, n))| serde_json::json!({"key": k, "runs": n, "description": d})).collect::<Vec<_>>(),
             "components": {
                 "real": ["ldap3 (driver loop, handles, streams, adapters, codec, controls)", "lber", "tokio::sync", "tokio::time (paused clock)", "tokio_util::codec::Framed", "bytes", "nom"],
-                "stub": ["transport (SimIo)", "network (chunking, delays)", "LDAP server (scripted, own BER codec)", "executor / scheduler"]
+                "stub": ["transport (SimIo)", "network (chunking, delays)", "LDAP server (scripted, own BER codec)", "executor / scheduler"],
+                "lanes_on_real_transports": "lanes ESTABURL, ESTABTLS and REALIO (where a property has them) run the real with_settings / ConnType dispatch over kernel loopback and Unix sockets, mio and OpenSSL through native-tls; there only the peer (a scripted thread) and - in the establishment lanes - the clock are simulated"
             }
         },
         "assumptions": [
